@@ -37,6 +37,11 @@ pub struct Scn {
     pub sender: SenderScn,
     pub recv: RecvSpec,
     pub loss: Loss,
+    /// (object timeout ms, spacing us): the deliveries are re-timed one every `spacing`, the receiver has this object
+    /// timeout and `cleanup()` runs after every push. An object whose own packets never pause for half the timeout
+    /// stays alive - also while everything it receives is redundant.
+    #[serde(default)]
+    pub retime: Option<(u64, u64)>,
 }
 
 pub struct C02;
@@ -203,6 +208,7 @@ pub fn gen(idx: u64, tier: Tier, rng: &mut Rng) -> Scn {
                 hi: (c + 1) * CHUNK,
                 max_n: if tier == Tier::Quick { 12 } else { 16 },
             },
+            retime: None,
         };
     }
     let special = rng.below(100);
@@ -218,7 +224,8 @@ pub fn gen(idx: u64, tier: Tier, rng: &mut Rng) -> Scn {
         } else {
             Loss::Threshold { delta: 0, pref: 0, p_dup: 0.0, drop_first_fdt: rng.chance(0.5) }
         };
-        return Scn { sender, recv, loss };
+        let retime = if rng.chance(0.5) { Some(*rng.pick(&[(500u64, 1000u64), (100, 200), (2000, 1000)])) } else { None };
+        return Scn { sender, recv, loss, retime };
     }
     recv.md5_check = rng.chance(0.8);
     let loss = if rng.chance(0.5) {
@@ -236,14 +243,24 @@ pub fn gen(idx: u64, tier: Tier, rng: &mut Rng) -> Scn {
             drop_first_fdt: rng.chance(0.3),
         }
     };
-    Scn { sender, recv, loss }
+    let retime = if rng.chance(0.2) { Some(*rng.pick(&[(8u64, 1000u64), (50, 5000), (3, 100)])) } else { None };
+    Scn { sender, recv, loss, retime }
 }
 
 /// Evaluate one delivered multiset (indices into the trace, order preserved).
 fn evaluate(scn: &Scn, ctx: &Ctx, sess: &Session, delivered: &[usize], what: &str) -> Vec<bool> {
     let ep = [scn.sender.spec.endpoint.build()];
-    let dl = deliveries_in_order(&sess.trace, delivered);
-    let mut r = receive(&scn.recv, ctx, &ep, &dl, Default::default(), "r0", 0, 0);
+    let mut dl = deliveries_in_order(&sess.trace, delivered);
+    let mut recv = scn.recv.clone();
+    if let Some((to_ms, spacing)) = scn.retime {
+        let base = dl.first().map(|d| d.t_us).unwrap_or(0);
+        for (k, d) in dl.iter_mut().enumerate() {
+            d.t_us = base + k as u64 * spacing;
+        }
+        recv.object_timeout_ms = Some(to_ms);
+        ctx.borrow_mut().count_fault("cleanup-with-object-timeout");
+    }
+    let mut r = receive(&recv, ctx, &ep, &dl, Default::default(), "r0", if scn.retime.is_some() { 1 } else { 0 }, 0);
     let mut outcome = Vec::new();
     for obj in &sess.objs {
         let (exact, wrong, _failed) = completes_exact(&r.monitor, obj);
@@ -264,7 +281,30 @@ fn evaluate(scn: &Scn, ctx: &Ctx, sess: &Session, delivered: &[usize], what: &st
             obj.toi,
             delivered,
         );
-        if blocks_ok && fdt_at.is_some() {
+        // with an object timeout: the object's own packets (and the arrival of its FDT) never pause for half the timeout
+        let alive = match (scn.retime, fdt_at) {
+            (Some((to_ms, spacing)), Some(f)) => {
+                let mut pos: Vec<usize> = delivered.iter().enumerate().filter(|(_, i)| sess.trace.pkts[**i].dec.toi == obj.toi).map(|(k, _)| k).collect();
+                pos.push(f);
+                pos.sort();
+                let ok = |pos: &[usize]| pos.windows(2).all(|w| (w[1] - w[0]) as u64 * spacing * 2 <= to_ms * 1000);
+                // (an FDT instance that is being received times out like any other object: the packets of each
+                // instance, up to the point where the object's FDT is decodable, must not pause either)
+                let mut by_instance: std::collections::BTreeMap<u32, Vec<usize>> = Default::default();
+                for (k, i) in delivered.iter().enumerate().take(f + 1) {
+                    let p = &sess.trace.pkts[*i];
+                    if p.dec.toi == 0 {
+                        by_instance.entry(p.dec.fdt.map(|x| x.1).unwrap_or(0)).or_default().push(k);
+                    }
+                }
+                ok(&pos) && by_instance.values().all(|v| ok(v))
+            }
+            _ => true,
+        };
+        if !alive {
+            ctx.borrow_mut().note("relax:object-may-time-out");
+        }
+        if blocks_ok && fdt_at.is_some() && alive {
             ctx.borrow_mut().note("precondition-held");
             if exact == 0 {
                 // classification from the history
@@ -385,7 +425,7 @@ pub fn run(scn: &Scn, ctx: &Ctx, scratch: &Path) {
                 }
             }
             let a = evaluate(scn, ctx, &sess, &delivered, "sampled");
-            if delivered.len() != no_dups.len() {
+            if delivered.len() != no_dups.len() && scn.retime.is_none() {
                 // metamorphic: duplicates never change the outcome
                 let b = evaluate(scn, ctx, &sess, &no_dups, "sampled-without-duplicates");
                 if a != b {
